@@ -99,11 +99,18 @@ def _hist(t):
     a0 = _answers(held)
     outs = []
     for sp in sps:
-        try:
-            other = Codon(_codon_arg(sp))
-            outs.append("OY" if other is held else "ON")
-        except (ValueError, AlphabetError):
-            outs.append("X-")
+        first = None
+        for attempt in (0, 1):       # every construction is made twice: a refusal (or an acceptance) must be repeatable
+            try:
+                other = Codon(_codon_arg(sp))
+                o = "OY" if other is held else "ON"
+            except (ValueError, AlphabetError):
+                o = "X-"
+            if attempt == 0:
+                first = o
+            elif o != first:
+                raise AssertionError(f"Codon({sp!r}): first construction {first}, second {o}")
+        outs.append(first)
     a1 = _answers(held)
     ob = lambda b: "T" if b is True else "F"   # noqa
     text = held_tok[4:] if held_tok.startswith("seq:") else held_tok
